@@ -255,13 +255,21 @@ fn process_request_obj(request: &Request, dbs: &Arc<Databases>, client: &mut Cli
                             let mut user_name_state = client.selected_db.user_name.write().unwrap();
 
                             if is_valid_user_token(&token, &user_name, db) {
-                                let _ = std::mem::replace(&mut *db_name_state, Some(name.clone()));
+                                let previous =
+                                    std::mem::replace(&mut *db_name_state, Some(name.clone()));
                                 let _ = std::mem::replace(
                                     &mut *user_name_state,
                                     Some(user_name.clone()),
                                 );
-                                db.inc_connections(); //Increment the number of connections
-                                set_connection_counter(db, &dbs);
+                                // A session counts on one database at a time
+                                if previous.as_ref() != Some(&name) {
+                                    if let Some(old_db) = previous.and_then(|old| dbs_map.get(&old)) {
+                                        old_db.dec_connections();
+                                        set_connection_counter(old_db, &dbs);
+                                    }
+                                    db.inc_connections(); //Increment the number of connections
+                                    set_connection_counter(db, &dbs);
+                                }
                                 Response::Ok {}
                             } else {
                                 Response::Error {
@@ -272,9 +280,17 @@ fn process_request_obj(request: &Request, dbs: &Arc<Databases>, client: &mut Cli
                         None => {
                             if is_valid_token(&token, db) {
                                 let mut db_name_state = client.selected_db.name.write().unwrap();
-                                let _ = std::mem::replace(&mut *db_name_state, Some(name.clone()));
-                                db.inc_connections(); //Increment the number of connections
-                                set_connection_counter(db, &dbs);
+                                let previous =
+                                    std::mem::replace(&mut *db_name_state, Some(name.clone()));
+                                // A session counts on one database at a time
+                                if previous.as_ref() != Some(&name) {
+                                    if let Some(old_db) = previous.and_then(|old| dbs_map.get(&old)) {
+                                        old_db.dec_connections();
+                                        set_connection_counter(old_db, &dbs);
+                                    }
+                                    db.inc_connections(); //Increment the number of connections
+                                    set_connection_counter(db, &dbs);
+                                }
                                 Response::Ok {}
                             } else {
                                 Response::Error {
